@@ -513,13 +513,13 @@ def layer_attribute_failures(ctx, n):
 
 def run(ctx):
     monitors.install(ctx, tokalg=False)
-    layer_string_templates(ctx, 60 if ctx.quick else 1000)
-    layer_file_chain(ctx, 12 if ctx.quick else 200)
-    layer_inplace_macro(ctx, 25 if ctx.quick else 400)
-    layer_recursive_render(ctx, 20 if ctx.quick else 300)
-    layer_handled_then_later(ctx, 20 if ctx.quick else 300)
-    layer_entity_written(ctx, 40 if ctx.quick else 600)
-    layer_attribute_failures(ctx, 40 if ctx.quick else 600)
+    layer_string_templates(ctx, 150 if ctx.quick else 1000)
+    layer_file_chain(ctx, 30 if ctx.quick else 200)
+    layer_inplace_macro(ctx, 60 if ctx.quick else 400)
+    layer_recursive_render(ctx, 50 if ctx.quick else 300)
+    layer_handled_then_later(ctx, 50 if ctx.quick else 300)
+    layer_entity_written(ctx, 80 if ctx.quick else 600)
+    layer_attribute_failures(ctx, 80 if ctx.quick else 600)
 
 
 def replay(data):
